@@ -16,6 +16,9 @@ CHECKS = {
  "C04": ("same exhaustive sweep as C01 with a panic/termination oracle + exhaustive off-by-one dimension mutations (documented construction panic expected)",
          "Every enumerated well-formed program (incl. m=0, empty cones, singleton SOC/PSD, zero rows/columns, duplicate rows, 1e+-6 scalings) must construct and solve without panicking, end in a terminal status and respect max_iter; every single off-by-one dimension inconsistency must be rejected by the documented assertion.",
          "cone-membership and KKT evaluator in mc/src/oracle.rs are trusted; comparisons carry a 1e-6 relative slack plus the floating-point evaluation allowance 4(n+m+4)u*sum|terms|; PSD cones run on the harness's self-checking plain-Rust BLAS/LAPACK shims; decides the property for the enumerated lattice of problems/settings only; hangs are bounded by max_iter (checked) and the per-space wall-clock cap", "DESIGN.md §5 C04"),
+ "C08": ("explicit enumeration of all operation histories over a 35-letter alphabet of update forms (whole vector, matrix, 1- and 2-entry index/value, empty, wrong length, out-of-range index, pattern mismatch, update_data good/bad, solve) to depth 3 (thorough 4) on 4 initial problems x equilibration on/off + presolve-active variant; reference model = four plain arrays; state oracle after every operation + differential against a freshly built solver after the final solve",
+         "Every history in the bound is replayed on a fresh real solver; after each operation the result (Ok/Err) is compared with the model's expectation, the internal P,q,A,b are compared entry for entry with the re-scaled model and the KKT copies of P and A bit for bit (guarded snapshot), rejected whole/matrix updates must leave data untouched, and the closing solve must agree with a freshly built solver on the model data (verdict class, objectives) and pass the C01 and C03 oracles for that data.",
+         "value sets are two per component; fresh-vs-updated agreement to 1e-6 relative; a component partially written by a rejected index/value update is treated as unspecified until its next whole update", "DESIGN.md §5 C08"),
  "C09": ("bounded-exhaustive enumeration of all placements of infinity-like right-hand sides (5 values per row) over all cone lists of <=3 atoms / <=4 rows (thorough <=6) x presolve on/off x equilibrate on/off, plus all set_infinity/default_infinity/build/solve histories to depth 4 (thorough 6) in a dedicated serial process; independent drop-set oracle + bitwise differential against a hand-reduced, hand-capped fresh solver",
          "Every placement and every history in the bound is executed on the real crate; the rows to drop are computed independently from b and the cone list (bound in force at build), dropped rows must come back as z=0, s=bound with the user's length and ordering, the internal b must be capped/reduced exactly, and the kept entries, status, iterations and objectives must equal bit for bit those of a solver built on the hand-reduced problem, which in turn is judged by the C01 oracle when it claims Solved.",
          "reference built with presolve disabled (and the module bound parked at 1e300 in histories); threshold values keep clear of the 10-eps contraction", "DESIGN.md §5 C09"),
